@@ -66,9 +66,52 @@ def generate(rng, tier, shard, nshards):
                 yield gops.event("ntw", {"sr": srn, "G": G, "ctx": ctx, "backend": be}, site=f"ntw[{be}]/Sat3", feat=feat)
 
 
+def rl_grammar(rng):
+    """A deterministic right-linear proper grammar over {a, b}: 2-3 states, every state can stop."""
+    n = rng.choice([1, 2, 3])
+    names = [f"#{k}" for k in range(n)]
+    rules = []
+    for X in names:
+        toks = [t for t in ("a", "b") if rng.random() < 0.8] or ["a"]
+        parts = rng.choice({1: [[[1, 2], [1, 2]], [[3, 4], [1, 4]], [[1, 4], [3, 4]]],
+                            2: [[[1, 2], [1, 4], [1, 4]], [[1, 4], [1, 2], [1, 4]], [[3, 8], [3, 8], [1, 4]]]}[len(toks)])
+        for t, w in zip(toks, parts):
+            rules.append({"w": w, "h": X, "b": [t, rng.choice(names)]})
+        rules.append({"w": parts[-1], "h": X, "b": []})
+    return {"S": "#0", "V": ["a", "b"], "rules": rules}
+
+
+def viable_context(rng, G, n):
+    st, ctx = G["S"], []
+    for _ in range(n):
+        opts = [r for r in G["rules"] if r["h"] == st and r["b"]]
+        if not opts:
+            break
+        r = rng.choice(opts)
+        ctx.append(r["b"][0])
+        st = r["b"][1]
+    return ctx
+
+
+def long_context_events(rng, tier):
+    """Contexts of hundreds of tokens (and, for the rescaled parser, contexts whose probability is far below the
+    smallest double): judged by the closed form for deterministic right-linear proper grammars."""
+    out = []
+    for gi in range(6 if tier == "quick" else 40):
+        G = rl_grammar(rng)
+        for backend, n in (("earley", 150), ("rescaled", 300), ("rescaled", 1500 if gi % 2 == 0 else 900), ("cky", 40)):
+            ctx = viable_context(rng, G, n)
+            # contexts beyond a few hundred tokens are reached as generation reaches them, 50 tokens at a time (a cold
+            # query recurses once per token and would hit Python's recursion limit: out of scope of the property)
+            out.append(gops.event("pnextrl", {"G": G, "ctx": ctx, "backend": backend,
+                                              "stepwise": 50 if n >= 300 else rng.choice([0, 0, 50])},
+                                  site=f"{backend}LM.p_next[long context]", feat=f"long-context-{n}", timeout=300))
+    return out
+
+
 def selftests(events, rng):
     out = selftest_numeric(events, rng, ops=("lmcall", "pnextseq"), n=8)
-    cands = [e for e in events if "exc" not in e and e["op"] in ("pnext", "ntw") and any(v != [0, 1] and v != 0 for _, v in e["dist"])]
+    cands = [e for e in events if "exc" not in e and e["op"] in ("pnext", "ntw", "pnextrl") and any(v != [0, 1] and v != 0 for _, v in e["dist"])]
     rng.shuffle(cands)
     for e in cands[:10]:
         c = copy.deepcopy(e)
@@ -104,11 +147,13 @@ def model_check(report, tier):
         report.add_tlc(res, f"CKY.tla: CNF grammars with <= {maxrules} rules, weights {{{ws}}}, all token sequences <= 3: "
                             "ColumnsAreInside, NextTokenIsExtension")
     semantic_core(report, ["PrefixRecurrence", "PrefixEmpty"], maxrules=2)
+    semantic_core(report, ["RLClosedForm"], maxrules=3, weights="<- RatWeights", sr="Rat")
 
 
 def run(report, tier, seed):
+    import random
     model_check(report, tier)
-    standard_run(report, "C04", MODULE, tier, seed, selftests,
+    standard_run(report, "C04", MODULE, tier, seed, selftests, extra_events=long_context_events(random.Random(seed + 4), tier),
                  rule=("exact-rational grammars with finitely many derivations (normalised or not, nullable parts, the empty "
                        "string), all contexts up to L (viable or not, and one containing eos), the three LM back-ends on warm "
                        "and cold objects: p_next (sums to one, proportional to prefix weights, eos gets Weight(ctx)), "
